@@ -86,7 +86,9 @@ def _is_identity(R, rep, res, what, path, replay):
 # add
 
 def _check_add(rep, curve):
+    from . import common
     oc = mod(CURVES[curve])
+    common.WITNESS_MOD[0] = oc.field_modulus
     rep.encoded(oc.add, oc.double)
     replay = {"kind": "c13_curve", "args": {"curve": curve, "func": "add"}}
 
@@ -156,7 +158,9 @@ def add_bls12_381(rep, tier):
 # double, neg, eq, is_on_curve, normalize, is_inf
 
 def _check_unary(rep, curve):
+    from . import common
     oc = mod(CURVES[curve])
+    common.WITNESS_MOD[0] = oc.field_modulus
     rep.encoded(oc.double, oc.neg, oc.eq, oc.is_on_curve, oc.normalize, oc.is_inf)
     rp = lambda f: {"kind": "c13_curve", "args": {"curve": curve, "func": f}}
 
@@ -321,7 +325,9 @@ def unary_bls12_381(rep, tier):
 # of the same point and takes the corresponding path
 
 def _check_scaling(rep, curve):
+    from . import common
     oc = mod(CURVES[curve])
+    common.WITNESS_MOD[0] = oc.field_modulus
     rep.encoded(oc.add, oc.double)
     replay = {"kind": "c13_curve", "args": {"curve": curve, "func": "add", "scaled": True}}
 
@@ -366,7 +372,9 @@ def scaling_bls12_381(rep, tier):
 # line functions of the optimized pairing modules
 
 def _check_linefunc(rep, curve):
+    from . import common
     op = mod(PAIRINGS[curve])
+    common.WITNESS_MOD[0] = op.field_modulus
     rep.encoded(op.linefunc)
     replay = {"kind": "c13_linefunc", "args": {"curve": curve}}
 
